@@ -637,5 +637,16 @@ func skippable(g guardAtom, at ssa.Instruction) bool {
 			targets[b] = true
 		}
 	}
+	// at in the tail of a helper (`return f(x)`): the continuation is the helper's success exit, which the other
+	// outcome may reach by a `return nil` of its own
+	if _, tail := at.Block().Instrs[len(at.Block().Instrs)-1].(*ssa.Return); tail {
+		for _, b := range at.Parent().Blocks {
+			if ret, isRet := b.Instrs[len(b.Instrs)-1].(*ssa.Return); isRet && b != at.Block() && len(ret.Results) > 0 {
+				if k, ok := ret.Results[len(ret.Results)-1].(*ssa.Const); ok && k.IsNil() && isErrorType(k.Type()) {
+					targets[b] = true
+				}
+			}
+		}
+	}
 	return !mustPass(other, map[*ssa.BasicBlock]bool{at.Block(): true}, targets)
 }
